@@ -615,7 +615,7 @@ func (w *World) durableSteps(fn *ssa.Function, depth int) []durableStep {
 }
 
 func checkC08(w *World, r *Report) {
-	r.Explanation = "Structural clause of C08: (K-1) the durable writes reachable from RigoApp.Commit are enumerated in execution order; the record that Info reads back (PutLastBlockContext) is written after all four controllers' commits and after the version-equality test, and nothing but the legacy height record follows it — so a crash before it leaves Info reporting the previous block; (K-2) divergence is detected: the version-equality tests in the application, governance and stake commits panic / fail before the meta record is written, RigoApp.BeginBlock and EVMCtrler.BeginBlock test height continuity before any effect, and Info reports what the meta store holds; (K-3) some function on the start-up path must bring every store back to the persisted height (version rollback / overwrite, or a comparison of store versions with the meta height) — absent on this tree, recorded as one known finding per gap between consecutive durable writes of a commit."
+	r.Explanation = "Structural clause of C08: (K-1) the durable writes reachable from RigoApp.Commit are enumerated in execution order; the record that Info reads back (PutLastBlockContext) is written after all four controllers' commits and after the version-equality test, and nothing but the legacy height record follows it — so a crash before it leaves Info reporting the previous block; (K-2) divergence is detected: the version-equality tests in the application, governance and stake commits panic / fail before the meta record is written, RigoApp.BeginBlock and EVMCtrler.BeginBlock test height continuity before any effect, and Info reports what the meta store holds; (K-3) some function on the start-up path must bring every store back to the persisted height (version rollback / overwrite, or a comparison of store versions with the meta height) — absent on this tree, recorded as one known finding per gap between consecutive durable writes of a commit; (K-4) what Commit writes is what a restarted node reads: the last-block record is written and read as one type whose MarshalJSON/UnmarshalJSON use identical wire structs and map every wire field from/to the same record field, every encoding/json decode target in the state packages is decodable by encoding/json (no non-empty interface / chan / func component outside a type with its own unmarshaller), and Info reports the record's height and app hash."
 	r.NotCovered = "that a replay after realignment reproduces the hashes; torn writes inside one store (LevelDB / iavl); unchecked write errors of the meta store (errcheck cross-reference)."
 	cm := needFn(r, "K-1", w, fref{"node", "RigoApp", "Commit"})
 	if cm == nil {
@@ -772,6 +772,8 @@ func checkC08(w *World, r *Report) {
 	r.Floor("K-1", 5, "commit point")
 	r.Floor("K-2", 5, "detection")
 	r.Floor("K-3", 10, "gaps between durable writes")
+	k4(w, r)
+	r.Floor("K-4", 10, "record round trip")
 }
 
 // ---------------------------------------------------------------- C10
